@@ -46,13 +46,13 @@ plan('C15',
          Job(H, 'b64junk', 'asan', quick=1500, thorough=60000, shards=(4, 16)),
          Job(H, 'b64junk', 'plain', quick=1500, thorough=60000, shards=(2, 8)),
          # explicit-length C entry point with n delimiting the text (defect: n is ignored by the decode loop)
-         Job(H, 'b64_ptrn', 'asan', quick=400, thorough=4000, shards=(2, 4)),
+         Job(H, 'b64_ptrn', 'asan', quick=400, thorough=4000, shards=(1, 2)),
          # hex: exhaustive short strings, random long ones; odd lengths apart (defect: one byte written past the result)
          Job(H, 'hexx', 'asan', quick=62, thorough=62, shards=(2, 2), params=dict(blk=64)),
          Job(H, 'hexx', 'plain', quick=62, thorough=62, shards=(1, 1), params=dict(blk=64)),
          Job(H, 'hex', 'asan', quick=500, thorough=20000, shards=(4, 16)),
          Job(H, 'hex', 'plain', quick=500, thorough=20000, shards=(2, 8)),
-         Job(H, 'hex_odd', 'asan', quick=ODD + 245, thorough=ODD + 20000, shards=(2, 4)),
+         Job(H, 'hex_odd', 'asan', quick=ODD + 245, thorough=ODD + 20000, shards=(1, 4)),
          Job(H, 'hex_odd', 'plain', quick=ODD + 245, thorough=ODD + 20000, shards=(1, 2)),
          # percent-encoding
          Job(H, 'url_pairs', 'asan', quick=255, thorough=255, shards=(4, 8)),
